@@ -31,7 +31,7 @@ PARTIAL = ('proved for all L >= 1 and all parameters (Properties/C06.v): the shi
            'automaton (C17) which equals the textbook word sum; kernel-checked finite facts: spin-1/2 and Fermi-Hubbard operator maps, '
            'XX+YY = (S+S- + S-S+)/2, Kronecker structure, word adjoint / Hermiticity of each table, charges of each operator. '
            'NOT proved: that from_opchains succeeds on these chain lists (checked per case), dense-matrix equality for all L '
-           '(only through C05_chains_to_mpo under its per-case hypotheses), sqrt entries of spin-1 / boson maps (abstract elements with the stated square).')
+           '(only through C05_chains_to_mpo under its per-case hypotheses), the Jordan-Wigner padding lemma for general L (two-site products kernel-checked), sqrt entries of spin-1 / boson maps (abstract elements with the stated square).')
 ASSUMPTIONS = ['"documented formula" = the docstring read with: first site most significant, Jordan-Wigner strings to the right (I..I a Z..Z), local basis |n_up n_dn>']
 RULE = ('models: Ising, XXZ spin-1/2, XXZ spin-1, Bose-Hubbard (d in 1..4), Fermi-Hubbard, linear fermionic (both types, complex coefficients); '
         'L from 1 (chains shorter than the longest local term) to dense reach (d=2: 8, d=3: 5, d=4: 4); parameters from {0, 1, -1, dyadic, generic} '
@@ -60,7 +60,7 @@ def cases(rng, tier):
             c['L'] = rng.choice([1, 2, 3, 4, 5, 6, 7]); c['ftype'] = rng.choice(['c', 'a', 'create', 'annihil'])
         out.append(c)
     # correspondence-only cases (no dense reference): every model for L in 1..7, parameters with zeros / ones / sign changes
-    m = {'quick': 70, 'thorough': 500, 'search': 0}[tier]
+    m = {'quick': 140, 'thorough': 700, 'search': 0}[tier]
     for k in range(m):
         model = ['ising', 'xxz', 'xxz1', 'bose', 'fermi', 'linferm'][k % 6]
         p = [rng.choice(VALS[:6]) if rng.random() < 0.85 else rng.randint(-16, 16) / 8.0 for _ in range(3)]
